@@ -18,13 +18,13 @@ from vf.props import c01, c07
 LEVEL = "exploration"
 RULE = ("all hardware models that have implicit rules (Huawei CE / NE / other, Arista, Nexus 3132 / 3432 / 9316 / 9364 / 9504 with and without the spine1 tag / other, Cisco "
         "Catalyst 2960 / 3560 / 3650 / other) x random trees mixing, per implicit rule, rows that match it (synthesised from the pattern), rows that nearly match, the default row "
-        "itself, and unrelated rows, recursively under matching blocks. Non-trivial: >=1 rule suppressed by an explicit row and >=1 default added. Distinct: hash of (model, tags, tree).")
+        "itself, and unrelated rows, recursively under matching blocks; a third of the cases with ordinary lines (VRF membership, addresses, descriptions) inside the interface blocks, changing between the two sides. Non-trivial: >=1 rule suppressed by an explicit row and >=1 default added. Distinct: hash of (model, tags, tree).")
 ASSUMPTIONS = [
     "rule patterns are read through the regex-level reference R1 (vf/ref/rulelang.py); the implicit rule texts themselves are taken from annet.implicit._implicit_tree (data)",
     "reference completion adds, with a default block, the defaults nested in it (what idempotence requires)",
 ]
-FLOORS = {"quick": {"completions": 2000, "defaults_added": 2000, "defaults_suppressed": 1000, "patches_checked": 1500, "front_runs": 150, "front_safe_runs": 150, "front_runs_clear_mode": 150},
-          "thorough": {"completions": 100000, "defaults_added": 100000, "defaults_suppressed": 50000, "patches_checked": 70000, "front_runs": 7000, "front_safe_runs": 7000, "front_runs_clear_mode": 7000}}
+FLOORS = {"quick": {"completions": 2000, "defaults_added": 2000, "defaults_suppressed": 1000, "patches_checked": 1500, "front_runs": 150, "front_safe_runs": 150, "front_runs_clear_mode": 150, "block_lines_added": 4000, "pairs_with_vrf_change_on_an_interface": 300},
+          "thorough": {"completions": 100000, "defaults_added": 100000, "defaults_suppressed": 50000, "patches_checked": 70000, "front_runs": 7000, "front_safe_runs": 7000, "front_runs_clear_mode": 7000, "block_lines_added": 80000, "pairs_with_vrf_change_on_an_interface": 6000}}
 MODELS = [("Huawei CE6870", ()), ("Huawei NE40E-X8", ()), ("Huawei Quidway S5300", ()), ("Arista DCS-7050", ()),
           ("Cisco Nexus 3132", ()), ("Cisco Nexus 3432", ()), ("Cisco Nexus 9316", ()), ("Cisco Nexus N9K-C9364", ()), ("Cisco Nexus 9504", ("spine1",)),
           ("Cisco Nexus 9504", ()), ("Cisco Nexus 5548", ()), ("Cisco Catalyst 2960", ()), ("Cisco Catalyst 3560", ()), ("Cisco Catalyst 3650", ()), ("Cisco Catalyst 6500", ())]
@@ -167,7 +167,26 @@ def diff_paths(diff, prefix=()):
     return out
 
 
-def check_case(seed, acc):
+BLOCK_LINES = ["vrf member A", "vrf member B", "ip address 10.0.0.1/24", "ipv6 address 2001:db8::1/64", "description x", "description y", "mtu 9000",
+               "ip binding vpn-instance A", "ip binding vpn-instance B", "vrf forwarding A", "vrf B"]  # (no channel-group lines: leaving a port-channel re-applies the whole interface by design, defaults included)
+
+
+def add_block_lines(xrng, t):
+    """ordinary lines (VRF membership, addresses, descriptions) inside the interface blocks of a configuration: block logics that look at them
+    must still treat the completed defaults of both sides alike"""
+    n = 0
+    for row, ch in t:
+        if row.startswith("interface ") and xrng.random() < 0.8:
+            have = {r for r, _ in ch}
+            for ln in xrng.sample(BLOCK_LINES, xrng.randint(1, 3)):
+                if ln not in have and not any(r.split()[:2] == ln.split()[:2] for r in have):
+                    ch.append([ln, []])
+                    have.add(ln)
+                    n += 1
+    return n
+
+
+def check_case(seed, acc, blk=False):
     from annet.api import _diff_and_patch
     from annet.annlib.patching import strip_unchanged
     from annet.vendors import registry_connector
@@ -176,7 +195,12 @@ def check_case(seed, acc):
     dev = Dev(model, tags)
     rules = rules_of(dev)
     t = gen_tree(rng, rules)
-    w = {"seed": seed, "model": model, "tags": list(tags), "tree": t}
+    xrng = random.Random(seed ^ 0xB10C)
+    if blk:
+        if not any(r.startswith("interface ") for r, _ in t):
+            t.append([{"H": "interface 10GE1/0/1", "A": "interface Ethernet1"}.get(model[0], "interface Ethernet1/1"), []])
+        acc.count("block_lines_added", add_block_lines(xrng, t))
+    w = {"seed": seed, "blk": blk, "model": model, "tags": list(tags), "tree": t}
     try:
         m = complete(dev, t)
         m2 = complete(dev, m)
@@ -204,6 +228,18 @@ def check_case(seed, acc):
         return w
     # (d) two configurations completed the same way: pure defaults of both sides are invisible
     u = gen_tree(rng, rules) if rng.random() < 0.5 else mutate(rng, t, rules)
+    if blk:
+        import copy
+        if xrng.random() < 0.7:
+            # the same interfaces on both sides, with other block lines: what changes is e.g. the VRF membership only
+            keep = {r for r, _ in u}
+            u += [[r, [[r2, copy.deepcopy(c2)] for r2, c2 in c if r2 not in BLOCK_LINES]] for r, c in t if r.startswith("interface ") and r not in keep]
+        u = [[r, [x for x in c if x[0] not in BLOCK_LINES]] if r.startswith("interface ") else [r, c] for r, c in u]
+        acc.count("block_lines_added", add_block_lines(xrng, u))
+        ti = {r: {x[0] for x in c} for r, c in t if r.startswith("interface ")}
+        if any(r in ti and any(x[0].startswith(("vrf ", "ip binding")) for x in c) and {x[0] for x in c if x[0].startswith(("vrf ", "ip binding"))} != {y for y in ti[r] if y.startswith(("vrf ", "ip binding"))}
+               for r, c in u if r.startswith("interface ")):
+            acc.count("pairs_with_vrf_change_on_an_interface")
     w["other"] = u
     try:
         mu = complete(dev, u)
@@ -377,7 +413,7 @@ def run_shard(spec, acc):
             if w.get("front"):
                 check_front(w["seed"], acc, clear=bool(w.get("clear")))
             else:
-                check_case(w["seed"], acc)
+                check_case(w["seed"], acc, blk=bool(w.get("blk")))
         return
     tier, k, n = spec["tier"], spec["shard"], spec["nshards"]
     total = 6000 if tier == "quick" else 120000
@@ -386,6 +422,8 @@ def run_shard(spec, acc):
         w = check_case(rng.randrange(1 << 48), acc)
         if j < 2 and w:
             acc.sample({k2: w[k2] for k2 in ("model", "tags", "tree")})
+        if j % 3 == 1:
+            check_case(rng.randrange(1 << 48), acc, blk=True)
         if j % 8 == 0:
             check_front(rng.randrange(1 << 48), acc)
         if j % 8 == 4:
